@@ -112,14 +112,17 @@ impl Projector {
             let ext: Vec<Value> = match &b.external_signature {
                 None => vec![],
                 Some(e) => {
-                    let m = json!({"tag": "ext", "ver": 1, "payload": p, "nk": {"id": "none", "alg": "none"}, "prev": prev, "ext": []});
+                    let m = json!({"tag": "ext", "ver": 1, "payload": p, "nk": {"id": "none", "alg": "none"}, "prev": prev, "ext": [], "body": []});
                     let s = self.project_sig(&e.signature, &[m]);
                     vec![json!({"key": self.key_of(&e.public_key), "sig": s})]
                 }
             };
             let extsig: Vec<Value> = ext.iter().map(|e| e["sig"].clone()).collect();
-            let m0 = json!({"tag": "v0", "ver": 0, "payload": p, "nk": nk, "prev": [], "ext": extsig});
-            let m1 = json!({"tag": "v1", "ver": 1, "payload": p, "nk": nk, "prev": prev, "ext": extsig});
+            // v0: the flat body (Chain.tla V0Body); v1: delimited fields
+            let mut body = vec![json!({"part": p})];
+            body.extend(extsig.iter().map(|s| json!({"sig": s})));
+            let m0 = json!({"tag": "v0", "ver": 0, "payload": "-", "nk": nk, "prev": [], "ext": [], "body": body});
+            let m1 = json!({"tag": "v1", "ver": 1, "payload": p, "nk": nk, "prev": prev, "ext": extsig, "body": []});
             let cands = if ver == 0 { vec![m0, m1] } else { vec![m1, m0] };
             let s = self.project_sig(&b.signature, &cands);
             prev = vec![s.clone()];
@@ -138,7 +141,7 @@ impl Projector {
             }
             Some(schema::proof::Content::FinalSignature(sg)) => {
                 let last = blocks.last().unwrap();
-                let m = json!({"tag": "seal", "ver": 0, "payload": last["payload"], "nk": last["nk"], "prev": [last["sig"]], "ext": []});
+                let m = json!({"tag": "seal", "ver": 0, "payload": last["payload"], "nk": last["nk"], "prev": [last["sig"]], "ext": [], "body": []});
                 let s = self.project_sig(sg, &[m]);
                 json!({"kind": "seal", "key": {"id": "none", "alg": "none"}, "sig": [s]})
             }
